@@ -64,6 +64,7 @@ def trans_value(t):
 
 
 FREED = []
+RETAINED = []
 
 
 def random_op(rng, sc, uniq):
@@ -76,6 +77,9 @@ def random_op(rng, sc, uniq):
         gone = [x for x in FREED if x not in sc._states]
         nm = rng.choice(gone) if gone and rng.random() < 0.25 else ('new%d' % next(uniq) if rng.random() < 0.8 else pick())
         st = new_state(rng, nm)
+        kept = [o for o in RETAINED if o.name not in sc._states]
+        if kept and rng.random() < 0.35:
+            st = rng.choice(kept)          # cut and paste: the very object that was removed earlier is added again
         pr = rng.random()
         parent = pick() if pr < 0.8 else (None if pr < 0.93 else '')
         return ('(EAddState %s %s)' % (tocoq.c_state(state_value(st)), copt(parent, cstr)),
@@ -83,6 +87,8 @@ def random_op(rng, sc, uniq):
     if r < 0.35:
         n = pick()
         FREED.extend([n] + (list(sc.descendants_for(n)) if n in sc._states else []))
+        if n in sc._states:
+            RETAINED.extend(sc._states[x] for x in [n] + list(sc.descendants_for(n)))
         return ('(ERemoveState %s)' % cstr(n), lambda: sc.remove_state(n), 'remove_state')
     if r < 0.5:
         o = pick()
@@ -99,7 +105,8 @@ def random_op(rng, sc, uniq):
         n, p = pick(), pick()
         return ('(EMoveState %s %s)' % (cstr(n), cstr(p)), lambda: sc.move_state(n, p), 'move_state')
     if r < 0.78:
-        t = Transition(pick(), pick() if rng.random() < 0.8 else None, event=rng.choice(['e0', 'e1', None]),
+        tg = rng.random()
+        t = Transition(pick(), pick() if tg < 0.75 else (None if tg < 0.93 else ''), event=rng.choice(['e0', 'e1', None]),
                        priority=rng.choice([None, 1, -1]))
         return ('(EAddTransition %s)' % tocoq.c_trans(trans_value(t)), lambda: sc.add_transition(t), 'add_transition')
     if r < 0.88:
@@ -198,6 +205,7 @@ def main(tier, seed):
         sc = genchart.valid_chart(rng, genchart.Profile(max_states=9, p_contract=0.05, p_entry_code=0.1, p_action=0.1,
                                                         p_guard=0.1))
         del FREED[:]
+        del RETAINED[:]
         for _ in range(rng.randint(4, 14)):
             pre = sx.chart_value(sc)
             queries(sc)       # (as a client would: traversal queries before the edit ...)
